@@ -127,5 +127,48 @@ int main(void)
   /* 14: poll timeout */
   struct pollfd pf = { q[0], POLLIN, 0 };
   P("poll_eof: r=%d rev=%d\n", poll(&pf, 1, 0), pf.revents);
+  /* 15: a pipe in packet mode: a read takes one packet, what of it does not fit is gone */
+  {
+    int d[2];
+    if (pipe2(d, O_DIRECT) == 0) {
+      ssize_t w1 = write(d[1], "abcd", 4), w2 = write(d[1], "ef", 2);
+      char b2[8] = { 0 }; ssize_t r1 = read(d[0], b2, 2); ssize_t r2 = read(d[0], b2 + 2, 6);
+      P("direct: w=%zd,%zd r1=%zd r2=%zd second=%c\n", w1, w2, r1, r2, r2 > 0 ? b2[2] : '-');
+      close(d[0]); close(d[1]);
+    }
+  }
+  /* 16: a hung-up read end asked about nothing still says so */
+  { int hh[2]; if (pipe(hh)) return 2; close(hh[1]); P("hup0: rev=%d\n", rev(hh[0], 0)); close(hh[0]); }
+  /* 17: a parent that ignores SIGCHLD has no zombies: its wait is told there is no child */
+  {
+    struct sigaction ig, old; memset(&ig, 0, sizeof ig); ig.sa_handler = SIG_IGN; sigaction(SIGCHLD, &ig, &old);
+    fflush(stdout);
+    pid_t a = fork(); if (a == 0) _exit(5);
+    int sa_ = 0; pid_t wr = waitpid(a, &sa_, 0); int e_ = errno;
+    P("autoreap: wait_failed=%d errno=%d\n", wr < 0, wr < 0 ? e_ : 0);
+    sigaction(SIGCHLD, &old, NULL);
+  }
+  /* 18: a stopped child is reported to a waiter that asks for stopped children, once, and is not reaped by that */
+  {
+    fflush(stdout);
+    pid_t a = fork();
+    if (a == 0) {
+#ifdef SIMK
+      extern int sk_cur; extern void __real__exit(int);
+      K->proc[sk_cur].state = PS_RUNNING; K->proc[sk_cur].stopped = 1; __real__exit(0);
+#else
+      raise(SIGSTOP); _exit(3);
+#endif
+    }
+    int s1 = 0, s2 = 0; pid_t w1 = waitpid(a, &s1, WUNTRACED);
+    P("stopped: reported=%d stopped=%d sig=%d\n", w1 == a, WIFSTOPPED(s1), WIFSTOPPED(s1) ? WSTOPSIG(s1) : 0);
+#ifdef SIMK
+    sk_child_exit(sk_proc_by_pid(a), 3 << 8);
+#else
+    kill(a, SIGCONT);
+#endif
+    pid_t w2 = waitpid(a, &s2, 0);
+    P("continued: reaped=%d exited=%d code=%d\n", w2 == a, WIFEXITED(s2), WEXITSTATUS(s2));
+  }
   return 0;
 }
